@@ -109,3 +109,31 @@ package bbc
 //@ ensures (err == nil) == frag.StartBit()
 //@ ensures err == nil ==> trans != nil && has(c.transmissions, frag.TransmissionID()) && c.transmissions[frag.TransmissionID()] == trans && trans.TransmissionID == frag.TransmissionID()
 //@ ensures err != nil ==> has(c.transmissions, frag.TransmissionID()) == old(has(c.transmissions, frag.TransmissionID()))
+
+// ---- connector (C12): failure signalling and the sending loop ----
+
+// Compression and bundle parsing of a finished transmission (xz, CBOR: outside reach here; the bundle codec is C01).
+// govc:trusted (*IncomingTransmission).Bundle
+//@ assigns nothing
+
+// govc:trusted NewOutgoingTransmission
+//@ assigns nothing
+//@ ensures err == nil ==> t != nil && t.mtu == mtu - 2 && t.TransmissionID == transmissionID && t.start
+
+// govc:iface Modem.Mtu
+//@ assigns nothing
+//@ ensures result == self.Mtu()
+
+// Whenever handling an incoming fragment fails (unknown transmission without start bit, wrong sequence number -
+// loss, duplicate, reordering - start bit in the middle, unparsable bundle), exactly one failure fragment naming
+// that transmission is queued for broadcast; a fragment handled without error queues none; a fragment carrying the
+// fail bit is only passed on to the sender side. A bundle is reported upwards only from a finished transmission.
+// govc:func (*Connector).handleIncomingFragment property C12
+//@ requires c.transmissions != nil && c.fragmentOut != nil && !closed(c.fragmentOut) && c.failTransmission != nil && !closed(c.failTransmission) && c.reportChan != nil && !closed(c.reportChan)
+//@ requires forall k byte :: has(c.transmissions, k) ==> c.transmissions[k] != nil
+//@ requires ref(c.fragmentOut) != ref(c.failTransmission) && ref(c.fragmentOut) != ref(c.reportChan) && ref(c.failTransmission) != ref(c.reportChan)
+//@ ensures err != nil ==> sent(c.fragmentOut) == old(sent(c.fragmentOut)) + 1
+//@ ensures err == nil ==> sent(c.fragmentOut) == old(sent(c.fragmentOut))
+//@ ensures frag.FailBit() ==> err == nil && sent(c.failTransmission) == old(sent(c.failTransmission)) + 1 && sent(c.reportChan) == old(sent(c.reportChan))
+//@ ensures sent(c.reportChan) == old(sent(c.reportChan)) || sent(c.reportChan) == old(sent(c.reportChan)) + 1
+//@ ensures err != nil ==> sent(c.reportChan) == old(sent(c.reportChan))
